@@ -430,10 +430,22 @@ def shrink_sim(ctx, specs, dist, minp, sig):
     return specs, dist
 
 
+# witnesses of defects repaired in /repo: (detectors, dist, min_photons); they must pass now (regression guards)
+CORPUS = [
+    # d3d39a64: the all-PNR shortcut ignored min_photons
+    ([("pnr",), ("none",)], [((1, 0), Fraction(1, 2)), ((0, 0), Fraction(1, 2))], 1),
+    ([("none",), ("none",), ("none",), ("none",)], [((0, 0, 1, 1), Fraction(1))], 3),
+    ([("pnr",), ("pnr",)], [((2, 0), Fraction(1, 4)), ((1, 0), Fraction(1, 4)), ((0, 0), Fraction(1, 2))], 2),
+]
+
+
 def run_simulate(ctx):
     rng = ctx.rng
     n_lists = ctx.n(60, 600)
     work = []
+    for ci, (specs, dist, minp) in enumerate(CORPUS):
+        work.append((list(specs), list(dist), minp, False, -1 - ci))
+        ctx.count("simulate.corpus-regression")
     for i in range(n_lists):
         m = rng.rint(1, 4)
         mode = rng.below(8)
